@@ -117,6 +117,9 @@ def run_one(name):
         e = res[meta['property']]
         meta['checks'] = dict(meta.get('checks', {}), **res)
         json.dump(meta, open(os.path.join(dst, 'meta.json'), 'w'), indent=1)
+        if meta.get('superseded'):
+            # no longer a breaking change on the current tree (see meta.json): the check must be quiet
+            return name, (1 if e['exit'] == 0 else 0), 'superseded (harmless now): check exit=%d' % e['exit']
         return name, e['exit'], (e['lines'] or [''])[0][:150]
     finally:
         drop_tree(d, wt)
